@@ -45,6 +45,12 @@ CHECKS = {
     'C10': dict(engine='ProcessCore', technique='TLA+ ProcessCore awaitables extension (workchains.Waiting enter/exit/_awaitable_done), TLC exhaustive (C10_Barrier, C10_FailureStops) + replay on real WorkChains with futures and launched children',
                 text='<=3 awaited items x registration way x outcome {ok, fails, killed} x every completion order and grouping into loop iterations x pause/play/kill placements; the step after the barrier records which futures are done and the ctx.',
                 ref='5 C10', note=CORE_NOTE),
+    'C14': dict(engine='Persister', technique='TLA+ Persister: abstract (pid,tag)->snapshot store with in-memory and pickle-file refinements in lockstep (AbsMem, AbsFiles, contracts, Equivalent), TLC over every history of <=L operations; histories replayed on both real persisters side by side',
+                text='Every history of <=4 (6 thorough) save/load/list/delete/delete-pid/progress/resume operations over 2 processes x tags, id kinds int/UUID/string with prefix pairs; results, exception classes and decoded bundles compared with the model store and with each other, also after the live and the recreated process moved on.',
+                ref='5 C14', note='Trusted base: TLC, harness/persister_real.py; pickle directory in a temp dir removed per history.'),
+    'C19': dict(engine='Savable', technique='TLA+ Savable: python heap model, operational Save/Load/EnsureLoader (mirror of persistence.py) vs declarative RoundTrip/CopiedAtSave/MethodsRebound/FutureState/LoaderPrecedence, TLC on every class shape x member kinds x loader configuration; every instance executed on real generated classes',
+                text='Inheritance chains of <=3 classes x auto_persist subsets x 9 member kinds (values, methods, nested Savables to depth 2, futures in four states) x 4 loader configurations x unknown-class flavours; members, rebinding, nesting, future states, second save and resolving loader compared with the TLA+ values.',
+                ref='5 C19', note='Trusted base: TLC, harness/savable_real.py; copy.deepcopy semantics assumed for the value domain.'),
     'C15': dict(engine='Expose', technique='TLA+ Expose: operational Absorb/ExposePorts (mirror of ports.py/process_spec.py, allocation ids) vs declarative Selected/NsProps/Independent, TLC on every (tree, rules, namespace, options) instance; each instance and every single mutation executed on real ProcessSpec objects',
                 text='Source trees with <=4 (5 thorough) ports and string-prefix name pairs x every include/exclude antichain x target namespaces x namespace_options; destination tree, descriptions, exposed-port memory and aliasing compared with the TLA+ result; every single mutation of either side checked for independence.',
                 ref='5 C15', note='Trusted base: TLC, harness/expose_real.py. Namespace defaults that are mutable objects mutated in place, and non-atomic refusals, are outside the universe (stated in the evidence).'),
@@ -75,6 +81,8 @@ m = {
          'kind_free_text': 'explicit TLA+ specification of the WorkChain outline interpreter (stepper tree vs structured semantics, stepper persistence)'},
         {'name': 'Expose', 'path': 'spec/Expose.tla', 'serves_properties': ['C15'],
          'kind_free_text': 'explicit TLA+ specification of PortNamespace.absorb / ProcessSpec.expose_* (operational vs declarative)'},
+        {'name': 'Persister', 'path': 'spec/Persister.tla', 'serves_properties': ['C14'], 'kind_free_text': 'explicit TLA+ refinement spec of the two persisters'},
+        {'name': 'Savable', 'path': 'spec/Savable.tla', 'serves_properties': ['C19'], 'kind_free_text': 'explicit TLA+ spec of Savable save/load over a heap model'},
         {'name': 'Adapters', 'path': 'spec/Adapters.tla', 'serves_properties': ['C20'],
          'kind_free_text': 'explicit TLA+ specification of the future adapters and CancellableAction'},
     ],
